@@ -106,6 +106,13 @@ class C02:
     def gen(self, rng, tier, index):
         spec = X.gen_spec(rng, max_groups=2, small=True, flavours=(("sim", 6), ("logged", 1)))
         spec["quiet"] = True
+        if rng.random() < 0.05:
+            # one long environment: its interaction records are tens of kilobytes, so a crash can land deep inside a record
+            spec["envs"] = [{"src": ["linear", {"n_interactions": 200 + rng.randrange(150), "n_actions": 3, "n_context_features": 2,
+                                                 "n_action_features": 2, "seed": rng.randrange(1, 30)}], "ops": []}]
+            spec["learners"] = spec["learners"][:2]
+            if spec["shape"] == "tuples":
+                spec["tuples"] = spec["tuples"][:3]
         return {"spec": wrap_spec(spec), "config": X.gen_config(rng), "resume_config": X.gen_config(rng), "knobs": X.gen_knobs(rng),
                 "gz": index % 3 == 2, "exhaustive": tier == "thorough" and index % 4 == 0,
                 "resume_sim_every": 7, "offset_seed": rng.randrange(1 << 30), "second_gen": rng.random() < 0.5}
@@ -130,7 +137,11 @@ class C02:
                 for _ in range(3):
                     offs.add(r.randrange(prev + 1, e - 1))
             prev = e
-        return sorted(offs), False
+        offs = sorted(offs)
+        if len(F) > 20000 and len(offs) > 48:       # long logs: a seeded sample of the boundary set (each resume is expensive)
+            keep = {0, 1, len(F)} | set(r.sample(offs, 45))
+            offs = sorted(keep)
+        return offs, False
 
     def resume(self, spec, path, config, seed, knobs, simulated):
         """Resume from ``path``.  Returns (tables | None, exception | None, evaluate-calls, log)."""
